@@ -98,6 +98,9 @@ def run_sharded(cmd, base_args, nshards, rundir, profile='release', timeout=3600
     with cf.ThreadPoolExecutor(max_workers=min(NCPU, nshards)) as ex:
         for i in range(nshards):
             a = [cmd] + list(base_args) + ['--shard', i, '--nshards', nshards]
+            if i % 4 == 3 and '--trace-log' not in a:
+                # every fourth shard runs with a logger that accepts and formats trace records (see report.rs)
+                a += ['--trace-log', 1]
             if per_shard_args:
                 a += per_shard_args(i)
             out = os.path.join(rundir, f'{cmd}-shard{i}.json')
